@@ -818,8 +818,8 @@ def run_catalogue(chk, tier, seed):
         for c in res["cases"]:
             chk.case(("cat",) + tuple(c))
         for key, f in res["fails"].items():
-            chk.fail(key, f["what"], {"python": K.replay_snippet(f["tid"], f["dk"], f["sc"], f["seed"], f["fault"], f["pos"], f["om"], f["alt"], key, HARNESS),
-                                      "case": {k: f[k] for k in ("tid", "dk", "sc", "seed", "fault", "pos", "om", "alt")}})
+            chk.fail(key, f["what"], {"python": K.replay_snippet(f["tid"], f["dk"], f["sc"], f["seed"], f["fault"], f["pos"], f["om"], f["alt"], key, HARNESS, f.get("fuse")),
+                                      "case": {k: f.get(k) for k in ("tid", "dk", "sc", "seed", "fault", "pos", "om", "alt", "fuse")}})
     chk.extra["catalogue_templates"] = n
 
 
